@@ -76,6 +76,9 @@ def curl_basis(g):
     fields = []
     if g.dim == 2:
         interior = [k for k in range(g.num_nodes) if k not in bnodes]
+        # unit normal of the plane of the grid (the grid may be embedded in a tilted plane of 3-d space)
+        X = g.nodes - g.nodes.mean(axis=1, keepdims=True)
+        nu = np.linalg.svd(X)[0][:, 2]
         for k in interior:
             q = np.zeros(nf)
             for f in range(nf):
@@ -85,7 +88,7 @@ def curl_basis(g):
                 n1, n2 = int(nodes[0]), int(nodes[1])
                 t = g.nodes[:, n2] - g.nodes[:, n1]
                 nrm = g.face_normals[:, f]
-                orient = np.sign(nrm[0] * t[1] - nrm[1] * t[0])
+                orient = np.sign(np.cross(nrm, t) @ nu)
                 psi1, psi2 = float(n1 == k), float(n2 == k)
                 q[f] = orient * (psi2 - psi1)
             fields.append(q)
